@@ -3,7 +3,7 @@
 time, in memory, and run every property's rules on the variant.  Any new VIOLATION or analysis problem on a benign variant is a
 brittle rule that must be hardened.
 
-usage: tools/benign_fuzz.py [--props C01,C02] [--kinds rename,log,reformat,negate,augassign] [--files pyrex/signals.py,...] [-j 16]
+usage: tools/benign_fuzz.py [--props C01,C02] [--kinds rename,log,reformat,negate,flipcmp,commute,hoist,inline] [--files pyrex/signals.py,...] [-j 16]
 """
 import argparse
 import ast
@@ -125,6 +125,115 @@ class AugAssign(ast.NodeTransformer):
         return node
 
 
+class FlipCompare(ast.NodeTransformer):
+    """a < b -> b > a (single comparisons of side-effect-free operands only)."""
+    FLIP = {ast.Lt: ast.Gt, ast.Gt: ast.Lt, ast.LtE: ast.GtE, ast.GtE: ast.LtE, ast.Eq: ast.Eq, ast.NotEq: ast.NotEq}
+
+    def visit_Compare(self, node):
+        self.generic_visit(node)
+        if len(node.ops) == 1 and type(node.ops[0]) in self.FLIP and _pure(node.left) and _pure(node.comparators[0]):
+            return ast.Compare(left=node.comparators[0], ops=[self.FLIP[type(node.ops[0])]()], comparators=[node.left])
+        return node
+
+
+def _pure(e):
+    """no calls, no comprehension, no literal sequences / strings: evaluation order and operand order are irrelevant"""
+    for n in ast.walk(e):
+        if isinstance(n, (ast.Call, ast.ListComp, ast.GeneratorExp, ast.DictComp, ast.SetComp, ast.List, ast.Tuple, ast.Dict, ast.Set, ast.JoinedStr, ast.Lambda,
+                          ast.IfExp, ast.NamedExpr, ast.Starred, ast.Await, ast.Yield, ast.YieldFrom)):
+            return False
+        if isinstance(n, ast.Constant) and isinstance(n.value, (str, bytes)):
+            return False
+    return True
+
+
+class Commute(ast.NodeTransformer):
+    """a * b -> b * a for side-effect-free numeric-looking operands."""
+
+    def visit_BinOp(self, node):
+        self.generic_visit(node)
+        if isinstance(node.op, ast.Mult) and _pure(node.left) and _pure(node.right):
+            node.left, node.right = node.right, node.left
+        return node
+
+
+class HoistTemp(ast.NodeTransformer):
+    """x = f(a + b)  ->  t_k = a + b; x = f(t_k)   (first pure BinOp argument of a call in a simple Assign/Return)."""
+
+    def __init__(self):
+        self.k = 0
+        self.in_fn = 0
+
+    def visit_FunctionDef(self, node):
+        self.in_fn += 1
+        self.generic_visit(node)
+        self.in_fn -= 1
+        return node
+
+    def _hoist(self, st):
+        if not self.in_fn or not isinstance(st, (ast.Assign, ast.Return)) or st.value is None:
+            return st
+        call = st.value
+        if not isinstance(call, ast.Call):
+            return st
+        for i, a in enumerate(call.args):
+            if not _pure(a):
+                return st               # hoisting past an impure earlier argument could reorder effects
+            if isinstance(a, ast.BinOp):
+                self.k += 1
+                nm = f"tmp_h{self.k}"
+                call.args[i] = ast.Name(id=nm, ctx=ast.Load())
+                return [ast.Assign(targets=[ast.Name(id=nm, ctx=ast.Store())], value=a), st]
+        return st
+
+    def generic_visit(self, node):
+        super().generic_visit(node)
+        for field in ("body", "orelse", "finalbody"):
+            seq = getattr(node, field, None)
+            if isinstance(seq, list) and seq and isinstance(seq[0], ast.stmt):
+                out = []
+                for st in seq:
+                    r = self._hoist(st)
+                    out.extend(r if isinstance(r, list) else [r])
+                setattr(node, field, out)
+        return node
+
+
+class InlineTemp(ast.NodeTransformer):
+    """x = <pure expr>; <next simple statement using x exactly once, x never used again in the function>  ->  substitute."""
+
+    def visit_FunctionDef(self, node):
+        self.generic_visit(node)
+        loads = {}
+        stores = {}
+        for n in ast.walk(node):
+            if isinstance(n, ast.Name):
+                (loads if isinstance(n.ctx, ast.Load) else stores).setdefault(n.id, []).append(n)
+        def walk_seq(seq):
+            i = 0
+            while i + 1 < len(seq):
+                a, b = seq[i], seq[i + 1]
+                if (isinstance(a, ast.Assign) and len(a.targets) == 1 and isinstance(a.targets[0], ast.Name) and _pure(a.value)
+                        and isinstance(b, (ast.Assign, ast.Return, ast.Expr)) and not any(isinstance(t, ast.Lambda) for t in ast.walk(b))):
+                    x = a.targets[0].id
+                    uses_b = [n for n in ast.walk(b) if isinstance(n, ast.Name) and n.id == x and isinstance(n.ctx, ast.Load)]
+                    written = {n.id for t in (b.targets if isinstance(b, ast.Assign) else []) for n in ast.walk(t) if isinstance(n, ast.Name)}
+                    if len(stores.get(x, [])) == 1 and len(loads.get(x, [])) == 1 and len(uses_b) == 1 and not (written & {n.id for n in ast.walk(a.value) if isinstance(n, ast.Name)}):
+                        class Sub(ast.NodeTransformer):
+                            def visit_Name(s, n):
+                                return a.value if (n.id == x and isinstance(n.ctx, ast.Load)) else n
+                        seq[i + 1] = Sub().visit(b)
+                        del seq[i]
+                        continue
+                i += 1
+        for n in ast.walk(node):
+            for field in ("body", "orelse", "finalbody"):
+                seq = getattr(n, field, None)
+                if isinstance(seq, list) and seq and isinstance(seq[0], ast.stmt):
+                    walk_seq(seq)
+        return node
+
+
 def mark_elifs(tree):
     for n in ast.walk(tree):
         if isinstance(n, ast.If) and len(n.orelse) == 1 and isinstance(n.orelse[0], ast.If):
@@ -146,6 +255,14 @@ def transform(src, kind, arg=None):
     elif kind == "negate":
         mark_elifs(tree)
         NegateIf().visit(tree)
+    elif kind == "flipcmp":
+        tree = FlipCompare().visit(tree)
+    elif kind == "commute":
+        tree = Commute().visit(tree)
+    elif kind == "hoist":
+        tree = HoistTemp().visit(tree)
+    elif kind == "inline":
+        tree = InlineTemp().visit(tree)
     else:
         raise ValueError(kind)
     ast.fix_missing_locations(tree)
@@ -201,7 +318,7 @@ def one(job):
 def main():
     ap = argparse.ArgumentParser()
     ap.add_argument("--props", default=",".join(PROPS))
-    ap.add_argument("--kinds", default="reformat,log,rename,negate")
+    ap.add_argument("--kinds", default="reformat,log,rename,negate,flipcmp,commute,hoist,inline")
     ap.add_argument("--files", default="")
     ap.add_argument("-j", type=int, default=16)
     ap.add_argument("--root", default="/repo")
